@@ -315,6 +315,7 @@ type l2case struct {
 	SizeKnown bool
 	Served    string
 	CL        string // "", wrong, none
+	DigestHdr string // "", none, actual (what Docker-Content-Digest says)
 	Cuts      []int  // body truncated after this many bytes on the k-th GET
 	Range     string // resume behaviour
 	Redirect  bool
@@ -343,6 +344,12 @@ func l2one(i int) {
 	c := l2case{I: i, Alg: []string{"sha256", "sha256", "sha512"}[rng.Intn(3)], SizeKnown: rng.Intn(4) > 0,
 		CL: []string{"", "", "", "wrong", "none"}[rng.Intn(5)], Range: []string{"", "", "ignore", "wrongoffset", "wrongbytes", "nocr"}[rng.Intn(6)],
 		Redirect: rng.Intn(5) == 0, Conc: []int64{3, 3, 8, 1}[rng.Intn(4)]}
+	c.DigestHdr = []string{"", "", "none", "actual"}[rng.Intn(4)]
+	if i%5 == 0 {
+		// the combination in which the response itself carries nothing to check against: size unknown to the
+		// caller, no Content-Length, and a digest header that is absent or simply describes what is served
+		c.SizeKnown, c.CL, c.DigestHdr = false, "none", []string{"none", "actual"}[rng.Intn(2)]
+	}
 	c.Len = []int{0, 1, 2, 5, 17, 64, 300, 1000, 5000}[rng.Intn(9)]
 	content := make([]byte, c.Len)
 	rng.Read(content)
@@ -370,6 +377,7 @@ func l2one(i int) {
 	h.Repo("proj/app").Blobs[dg] = sv.data
 	w.Unlock()
 	h.Cfg.BlobCL = c.CL
+	h.Cfg.BlobDigestHdr = c.DigestHdr
 	h.Cfg.RangeMode = c.Range
 	var cdn *modelreg.Host
 	if c.Redirect {
@@ -377,7 +385,7 @@ func l2one(i int) {
 		w.Lock()
 		cdn.Repo("proj/app").Blobs[dg] = sv.data
 		w.Unlock()
-		cdn.Cfg.BlobCL, cdn.Cfg.RangeMode = c.CL, c.Range
+		cdn.Cfg.BlobCL, cdn.Cfg.RangeMode, cdn.Cfg.BlobDigestHdr = c.CL, c.Range, c.DigestHdr
 		h.Cfg.BlobRedirect = cdn.Srv.URL
 	}
 	// k-th blob GET with a body is cut
@@ -562,12 +570,13 @@ func level3() {
 func main() {
 	run = ev.Start("C01", "exploration")
 	run.Rule("level 1: blob.NewReader over scripted readers, exhaustive for content lengths 0..20 (thorough 0..40): every truncation offset, one bit flip per byte, 1-3 extra bytes, whole substitution x reader return styles (EOF separate / together with data / zero-length reads / 1-byte dribble / mid-stream error) x 9 caller buffer sequences x sha256/sha512 x size known/unknown, each followed by a rewind and re-read; sampled up to 70 KB (256 KB thorough); " +
-		"level 2: RegClient.BlobGet against the model registry storing arbitrary bytes under the intended digest: Content-Length right/wrong/absent, 0-4 mid-body connection drops followed by resumes answered correctly / ignoring the range / at the wrong offset / with wrong bytes / without Content-Range, redirect to a second host, inline descriptor data right/wrong, host concurrency 1/3/8; level 3: OCI layouts whose digest-named file was corrupted; " +
+		"level 2: RegClient.BlobGet against the model registry storing arbitrary bytes under the intended digest: Content-Length right/wrong/absent, 0-4 mid-body connection drops followed by resumes answered correctly / ignoring the range / at the wrong offset / with wrong bytes / without Content-Range, redirect to a second host, inline descriptor data right/wrong, host concurrency 1/3/8; level 3: OCI layouts whose digest-named file was corrupted; conversions that read to the end on the caller's behalf (ToOCIConfig, tar RawBody, tar ReadFile of an absent name, RegClient.BlobGetOCIConfig against registry and layout) over variants that stay well-formed JSON / tar; " +
 		"non-trivial = every evaluated read (each has a known expected class); distinct = (level, corruption class, transport class)")
 	run.Assume("clean completion is what io.ReadAll / io.Copy see: the final error is exactly io.EOF", "a correct stream over an honest transport must complete (otherwise the law would be vacuous); over a lossy transport only the law itself is demanded")
 	level1()
 	level2()
 	level3()
+	conversions()
 	run.Races(func(rep string) string {
 		for _, frag := range []string{"/repo/types/blob/", "/repo/internal/limitread/", "/repo/internal/reghttp/", "/repo/scheme/reg/blob.go", "/repo/scheme/ocidir/blob.go"} {
 			if fn := ev.RaceFrame(rep, frag); fn != "" {
